@@ -11,6 +11,65 @@ MUTATORS = {"pop", "popitem", "clear", "update", "setdefault", "__setitem__",
             "__delitem__"}
 
 
+# where kill(pid, 0) is known to disagree with the process listing (the code's own
+# comments, confirmed on the pinned tree): the direction in which the listing must
+# have the final say
+KILL_LIES = {
+    "netbsd": (False, "kill() reports ESRCH for zombies, which pids() lists"),
+    "openbsd": (True, "kill() succeeds for thread IDs, which pids() does not list"),
+}
+
+
+def _bsd_pid_exists(ctx, repo, A):
+    from ..core.pyrepo import eval_cond, platform_flags
+    for plat, (lies_when, why) in sorted(KILL_LIES.items()):
+        flags = platform_flags(plat)
+        cands = [f for f in repo.funcs("_psbsd", "pid_exists")
+                 if all(eval_cond(t, flags) is pol for t, pol in f.conds)]
+        key = f"{plat}-pid_exists:listing-decides"
+        if not cands:
+            # no own definition: the plain kill() probe is used on this platform
+            m = repo.mod("_psbsd")
+            ctx.fail("C04.R2", key, m.rel, 0, "pid_exists",
+                     f"{plat} uses the bare kill() probe, but {why}: pid_exists() would "
+                     f"disagree with pids()")
+            continue
+        f = cands[0]
+        cfg = A.cfg(f)
+        probes = [c for c in calls_in(f.node) if dotted(c.func) == "_psposix.pid_exists"]
+        subj = {norm_stmt(c) for c in probes}
+        for nm, sts in assigned_names(f.node).items():
+            if any(isinstance(st, ast.Assign) and st.value in probes for st in sts):
+                subj.add(nm)
+        bad = None
+        nret = 0
+        for n in cfg.nodes:
+            if n.kind != "return":
+                continue
+            nret += 1
+            pol = None
+            for ft in facts(cfg, n):
+                if ft[0] in ("truthy", "expr") and ft[1] in subj:
+                    pol = ft[2]
+            v = n.stmt.value
+            if isinstance(v, ast.Call) and dotted(v.func) == "_psposix.pid_exists":
+                bad = "returns the bare kill() probe"
+            elif pol is lies_when or pol is None:
+                listing = isinstance(v, ast.Compare) and len(v.ops) == 1 \
+                    and isinstance(v.ops[0], ast.In) \
+                    and isinstance(v.comparators[0], ast.Call) \
+                    and dotted(v.comparators[0].func) == "pids"
+                if not listing:
+                    bad = (f"answers `{norm_stmt(v) if v is not None else None}` when the kill() "
+                           f"probe says {lies_when}")
+        if bad or not nret:
+            ctx.fail("C04.R2", key, f.file, f.node.lineno, f.qual,
+                     f"{plat}: {why}, yet pid_exists() {bad or 'has no return'}: it no longer "
+                     f"answers True exactly for the PIDs pids() lists")
+        else:
+            ctx.ok("C04.R2", key, sample=f"{plat}: probe says {lies_when} -> `pid in pids()` decides")
+
+
 def run(ctx):
     repo = Repo(ctx.repo)
     A = Analysis(repo)
@@ -169,6 +228,8 @@ def run(ctx):
                  f"Linux pid_exists answers `{pretty(tt)[:160]}`: thread IDs must answer False "
                  f"(int(Tgid column) == pid) and the fallback is the listing")
 
+    _bsd_pid_exists(ctx, repo, A)
+
     # ------------------------------------------------------------------- R3
     ctx.rule("C04.R3", "cache discipline of process_iter(): works on a copy; PIDs "
              "that went away are dropped before iterating; _pids_reused is drained "
@@ -292,6 +353,18 @@ def run(ctx):
         ctx.fail("C04.R3", "drain-reused", pi.file, pi.node.lineno, pi.qual,
                  "PIDs found recycled by is_running() are no longer evicted: the stale "
                  "object would keep being yielded for the new process")
+    # ... and the producer side: every recycled verdict is published, whatever the
+    # state of the cache at that moment
+    from .c02 import publish_conditions
+    extra = publish_conditions(repo, A)
+    irf = repo.func("psutil", "Process.is_running")
+    if extra:
+        ctx.fail("C04.R3", "reused-published", irf.file, irf.node.lineno, irf.qual,
+                 f"is_running() publishes a recycled PID to process_iter() only under {extra}: "
+                 f"an object cached by an iteration still in progress is never replaced")
+    else:
+        ctx.ok("C04.R3", "reused-published", sample="_pids_reused.add(self.pid) whenever the "
+               "recycled verdict is reached")
     # (d) new -> Process(pid) stored in the map, under `proc is None`
     new_ok = False
     for st, var in insertions(pi.node):
